@@ -33,6 +33,30 @@ CHECKS = {
          'small-angle threshold; DCM entries, sign conventions, round trip, exponential map to 8 eps and continuity across the branch, attitude block of transform_to_output vs derivative of Euler angles. Exploration.',
     note='Trusts own rotation algebra (self-tested with convention pins); scipy as_euler gimbal zone (|pitch|>90-1e-4 deg) checked as a rotation only.',
     design='DESIGN.md section 4, C17'),
+ 'C02': dict(
+    technique='model-based testing over generated operation sequences (Hypothesis-generated op lists interpreted against the real Integrator and a fresh single-shot model), bitwise comparison; kernel bounds checking',
+    text='Generated histories of integrate(chunk)/predict/get_pva/get_time/set_pva with chunk sizes aimed at buffer-growth boundaries, initial capacity 1..8, both altitude modes; after every operation the stored trajectory, '
+         'time index and return values must be bit-identical to a fresh integrator per segment integrating all rows in one call. Exploration of histories up to 30 operations / 48 rows.',
+    note='Trusts NUMBA_BOUNDSCHECK=1 to trap out-of-bounds kernel writes and Integrator.INITIAL_SIZE as the capacity knob; float comparison is bitwise.',
+    design='DESIGN.md section 4, C02'),
+ 'C09': dict(
+    technique='structured schedule generation (constructed interleaving classes) with exact bookkeeping predicates and a sys.monitoring loop-iteration budget for termination',
+    text='Generated IMU epoch tables (uniform/irregular/gapped) x up to three measurement streams with epochs constructed on/between/one-ulp-from IMU samples, clustered, shared, out of span x time_step classes x modes x '
+         'defaults; the feedback filter must terminate within n_increments+n_epochs+2 loop iterations, return the exact trajectory index, exactly one innovation per in-span sample stamped with its own time, finite consistent tables. Exploration.',
+    note='One measurement object per class; termination judged by an iteration budget the statement implies (every iteration consumes an increment); monitored line located by ast in the current source.',
+    design='DESIGN.md section 4, C09'),
+ 'C10': dict(
+    technique='structured schedule generation with exact bookkeeping predicates, step-bound predicate and a sys.monitoring loop-iteration budget',
+    text='Same generator as C09 on (nominal, computed) trajectory pairs with/without increments; feedforward filter must terminate within n_rows+n_epochs+2 iterations, return one strictly increasing index that is a subset of the '
+         'input times, starts at the first and never steps beyond max(time_step, local gap), use every in-span sample exactly once in time order, stay finite. Exploration.',
+    note='As C09.',
+    design='DESIGN.md section 4, C10'),
+ 'C13': dict(
+    technique='invariant over generated call histories (bitwise equality predicates) + generated 2D filter schedules + generated 2D measurement cases',
+    text='C02 machine in no-altitude mode with arbitrary supplied VD and vertical specific force: every produced row has VD==0.0 and altitude bit-equal to the most recently supplied one; 2D feedback/feedforward runs over generated '
+         'schedules: trajectory rows, sd columns down/VD exactly zero; 2D Position/NedVelocity return 2-row z/H/R. Exploration.',
+    note='Bitwise comparisons, NUMBA_BOUNDSCHECK=1.',
+    design='DESIGN.md section 4, C13'),
 }
 NOT_YET = 'check not built yet in this session (planned, see DESIGN.md section 8); not claimed until its check exists'
 
